@@ -1,4 +1,5 @@
 import TinyFlux.Audit.Tool
 import TinyFlux.Props.C06
 import TinyFlux.Props.C06State
+import TinyFlux.Props.C06Witness
 #audit TinyFlux.Props.C06
